@@ -1176,6 +1176,9 @@ func (ds *AnySource) ArchiveDataBlock(N int, file *os.File, finalName string) er
 	if ds.archiveBlock.active {
 		return fmt.Errorf("cannot start archive block, because one is already being acquired")
 	}
+	if N < 0 {
+		return fmt.Errorf("cannot store a raw data block of %d samples", N)
+	}
 	ds.archiveBlock.earliestTime = time.Now()
 	ds.archiveBlock.requestedSamples = N
 	ds.archiveBlock.segments = nil
